@@ -8,7 +8,7 @@
     ingredient of it (character data, attribute values, character references, CDATA text); the tree level is decided
     by the document-level oracle of checks/C12.py on the real library. *)
 From XV Require Import C05.Spec05 C05.Model05 C12.Spec12 C12.Model12
-  C12.Proofs12a C12.Proofs12b C12.Proofs12c C12.Proofs12d C12.Proofs12e C12.Proofs12f.
+  C12.Proofs12a C12.Proofs12b C12.Proofs12c C12.Proofs12d C12.Proofs12e C12.Proofs12f C12.ModelNs12 C12.Proofs12g.
 Local Open Scope N_scope.
 
 (** T12_escape_exact: the bytes of formatBuf are the transcoding of a character-wise map of the input ... *)
@@ -108,7 +108,8 @@ Print Assumptions T12_roundtrip_text_node.
 
 Theorem T12_roundtrip_attribute : forall cf n v out, c_fixed cf = true -> can_uniform (c_can cf) -> units16 v ->
   ser_attrs cf [(n, v)] = Ok out ->
-  out = [32] ++ data16 cf NoEscapes n ++ [61; 34] ++ data16 cf AttrEscapes v ++ [34] /\
+  forallb (c_can cf) n = true /\
+  out = [32] ++ n ++ [61; 34] ++ data16 cf AttrEscapes v ++ [34] /\
   unescape_parse true (c_xml11 cf) (data16 cf AttrEscapes v) = Some v.
 Proof. exact attr_roundtrip. Qed.
 Print Assumptions T12_roundtrip_attribute.
@@ -117,6 +118,34 @@ Theorem T12_roundtrip_cdata_node : forall cf s out, c_fixed cf = true -> c_split
   forallb (c_can cf) s = true -> ser_node cf (CData s) = Ok out -> parse_sections (S (length s)) out = Some s.
 Proof. exact cdata_node_roundtrip. Qed.
 Print Assumptions T12_roundtrip_cdata_node.
+
+(** T12_nsfixup: the scope table of namespace fix-up in normalizeDocument() (DOMNormalizer::InScopeNamespaces; model
+    ModelNs12.v, tied to the code by reading and by the normalizeDocument route of the document-level oracle).
+    Whatever scopes were pushed/popped and bindings added or changed: a prefix answered for a namespace URI is bound
+    to that URI in the current scope -- a lookup never returns a shadowed prefix -- and after rebinding a prefix the
+    old namespace no longer leads to it. *)
+Theorem T12_nsfixup : forall ops st, ns_run ops [] = Some st ->
+  forall u p, get_prefix st u = Some p -> get_uri st p = Some u.
+Proof. exact nsfixup_consistent. Qed.
+Print Assumptions T12_nsfixup.
+
+Theorem T12_nsfixup_rebound : forall ops st p u1 u2 st', ns_run ops [] = Some st -> u1 <> u2 ->
+  ns_step st (Bind p u2) = Some st' -> get_prefix st' u1 <> Some p.
+Proof. exact nsfixup_rebound. Qed.
+Print Assumptions T12_nsfixup_rebound.
+
+(** the variant that falls back to the base scope when its own table has no entry does return the shadowed prefix *)
+Theorem T12_nsfixup_fallback_refuted :
+  exists st, ns_run [Push; Bind 1 10; Push; Bind 1 20] [] = Some st /\
+             get_prefix_fallback st 10 = Some 1 /\ get_uri st 1 = Some 20 /\ get_prefix st 10 = None.
+Proof. exact fallback_refuted. Qed.
+Print Assumptions T12_nsfixup_fallback_refuted.
+
+(** known finding F54 on the faithful model: two prefixes on one URI, both rebound: removeKey throws *)
+Theorem T12_nsscope_rebind_both_throws :
+  ns_run [Push; Bind 1 30; Bind 2 30; Push; Bind 1 10; Bind 2 20] [] = None.
+Proof. exact rebind_both_throws. Qed.
+Print Assumptions T12_nsscope_rebind_both_throws.
 
 (** the behaviour as found, refuted on the model of the unrepaired code *)
 Theorem T12_cdata_split_old_refuted :
@@ -172,6 +201,16 @@ Example T12_nonvacuous_doc :
   = Ok [60; 114; 32; 107; 61; 34; 38; 113; 117; 111; 116; 59; 38; 35; 120; 50; 48; 65; 67; 59; 34; 62;
         38; 108; 116; 59; 60; 33; 45; 45; 120; 45; 45; 62; 60; 63; 116; 32; 100; 63; 62; 60; 47; 114; 62].
 Proof. vm_compute. reflexivity. Qed.
+Example T12_nonvacuous_attrname :
+  ser_doc (mk_cfg ELatin1 false true false true []) [Elem [114] [([107; 0x3A9], [118])] []] = Err S_Unrepresentable /\
+  ser_doc (mk_cfg ELatin1 false true false false []) [Elem [114] [([107; 0x3A9], [118])] []] =
+    Ok [60; 114; 32; 107; 38; 35; 120; 51; 65; 57; 59; 61; 34; 118; 34; 47; 62].
+Proof. vm_compute. split; reflexivity. Qed.
+Example T12_nonvacuous_restricted11 :
+  ser_doc (mk_cfg EUtf8 true true false true []) [Elem [114] [] [Text [1]]] = Ok [60; 114; 62; 38; 35; 120; 49; 59; 60; 47; 114; 62] /\
+  ser_doc (mk_cfg EUtf8 true true false false []) [Elem [114] [] [Text [1]]] = Err S_InvalidChar /\
+  ser_doc (mk_cfg EUtf8 true true false true []) [Elem [114] [] [Comment [1]]] = Err S_InvalidChar.
+Proof. vm_compute. repeat split; reflexivity. Qed.
 Example T12_nonvacuous_errors :
   ser_doc (mk_cfg ELatin1 false true false true []) [Elem [114; 0x20AC] [] []] = Err S_Unrepresentable /\
   ser_doc (mk_cfg EUtf8 false true false true []) [Elem [114] [] [CData [1]]] = Err S_InvalidChar /\
